@@ -81,4 +81,5 @@ def seg_seg_distance(f1, f2, t1, t2, n=400):
 
 def local_project(p, origin):
     """equirectangular tangent-plane coordinates (metres): y north, x east, around origin"""
-    return (R * math.radians(p[0] - origin[0]), R * math.cos(math.radians(origin[0])) * math.radians(p[1] - origin[1]))
+    dlon = (p[1] - origin[1] + 180.0) % 360.0 - 180.0          # shortest way round (the map may straddle the antimeridian)
+    return (R * math.radians(p[0] - origin[0]), R * math.cos(math.radians(origin[0])) * math.radians(dlon))
